@@ -81,6 +81,8 @@ def setup():
     if _STATE:
         return
     hb_backend.sp = _FSP
+    # "always_run job has a resource file dependency" etc.: expected, and there would be millions of them
+    warnings.filterwarnings('ignore', category=UserWarning, module=r'hailtop\.batch')
     root = tempfile.mkdtemp(prefix='verif_c17_')
     _STATE['root'] = root
     _STATE['backend'] = hb.LocalBackend(tmp_dir=root)
@@ -270,9 +272,13 @@ def violation(N, obs, ar, fail):
     parts = {}
     T, F = z3.BoolVal(True), z3.BoolVal(False)
     if obs.get('build_failed'):
-        # every call the builder makes is legitimate DSL usage (cycles are only rejected by run())
-        parts['pipeline_builds'] = F
-        return T, parts
+        # the DSL refused a call while the pipeline was being built: there is no pipeline, nothing ran; C17 does not
+        # promise that programs are accepted.  Counted and reported, not a violation.
+        if obs['log'] or obs['other_calls']:
+            parts['nothing_runs_when_building_fails'] = F
+            return T, parts
+        parts['rejected_at_build'] = T
+        return F, parts
     par = parents_of(N, shape)
     order = kahn(N, par)
     if order is None:
@@ -362,7 +368,7 @@ def explore_shard(args):
     ar = [z3.Bool(f'ar_{j}') for j in range(N)]
     fail = [z3.Bool(f'fail_{j}') for j in range(N)]
     res = {'fix': args.get('fix', {}), 'paths': 0, 'cyclic_paths': 0, 'dag_paths': 0, 'queries': 0, 'twins_sat': 0,
-           'violations': [], 'unknown': 0, 'samples': [], 'part_counts': {}, 'symbolic_parts': 0}
+           'violations': [], 'unknown': 0, 'rejected_at_build': 0, 'rejection_example': None, 'samples': [], 'part_counts': {}, 'symbolic_parts': 0}
 
     def body():
         inp = SymInputs(N, args['kinds'], args.get('aro', (0,)), args.get('global_flavour', False))
@@ -376,7 +382,12 @@ def explore_shard(args):
         res['paths'] += 1
         v, parts = violation(N, obs, ar, fail)
         cyclic = 'cycle_rejected_before_anything_runs' in parts
-        res['cyclic_paths' if cyclic else 'dag_paths'] += 1
+        if 'rejected_at_build' in parts:
+            res['rejected_at_build'] += 1
+            if res['rejection_example'] is None:
+                res['rejection_example'] = {'choices': dict(p.choices), 'exc': list(obs['exc'])}
+        else:
+            res['cyclic_paths' if cyclic else 'dag_paths'] += 1
         for k in parts:
             res['part_counts'][k] = res['part_counts'].get(k, 0) + 1
         # reachability twin: the path condition itself is satisfiable
